@@ -7,11 +7,13 @@
 Supported subset
   statements:  f.seek(e[, w]) | f.write(e) | f.truncate() | name = e | self.attr = e | assert e | pass | docstrings
                if <flag>: ... [else: ...]        flag: a boolean parameter name, `not flag`, or the `_metadata` file-name test
+               if <comparison>: ... [else: ...]  < <= > >= == != on integers, == != on bytes (operands may read the cursor)
                try: <stmts> except ...: raise ...   (every exception is one outcome: None)
                with open(path, mode) as f: <stmts>
                x = from_buffer(e, ..)            x stands for the bytes it was parsed from
                update_custom_metadata(x, ..)     x := thrift x   (thrift : bytes -> bytes = serialise o update o parse, opaque)
-  expressions: ints, bytes literals, names, + - unary -, len(e), e[a:b], e == e (bytes), f.read([n]), f.seek(..), f.tell(),
+  expressions: ints, bytes literals, names, module-level integer constants, + - unary -, min/max, len(e), e[a:b],
+               comparisons, f.read([n]), f.seek(..), f.tell(),
                f.write(e), write_thrift(f, x) (= f.write(x)), struct.unpack('<I', e)[0], struct.pack('<I', e),
                int.from_bytes(e, 'little')
 Effects inside expressions are sequenced left to right (continuation passing); an `if` duplicates its continuation.
@@ -29,9 +31,35 @@ def fail(node, msg, fn="?"):
 
 
 class Tr:
-    def __init__(self, fname, fvar, flags):
+    def __init__(self, fname, fvar, flags, consts=None):
         self.fname, self.f, self.flags = fname, fvar, flags
+        self.consts = consts or {}
         self.n = 0
+
+    # ---- static types of expressions: 'int' | 'bytes' | 'bool' ------------------------------------------------------
+    def typeof(self, e, env):
+        if isinstance(e, ast.Constant):
+            return {bool: "bool", int: "int", bytes: "bytes"}.get(type(e.value))
+        if isinstance(e, ast.Name):
+            return env.get(e.id) or ("int" if e.id in self.consts else None)
+        if isinstance(e, ast.Attribute) and isinstance(e.value, ast.Name) and e.value.id == "self":
+            return env.get("self_" + e.attr)
+        if isinstance(e, ast.UnaryOp):
+            return "bool" if isinstance(e.op, ast.Not) else "int"
+        if isinstance(e, ast.BinOp):
+            return "int"
+        if isinstance(e, ast.Compare):
+            return "bool"
+        if isinstance(e, ast.Subscript):
+            return "bytes" if isinstance(e.slice, ast.Slice) else "int"
+        if isinstance(e, ast.Call):
+            if self.is_f(e, "read"):
+                return "bytes"
+            if isinstance(e.func, ast.Name):
+                return {"len": "int", "min": "int", "max": "int", "write_thrift": "int", "from_buffer": "bytes"}.get(e.func.id)
+            if isinstance(e.func, ast.Attribute):
+                return {"seek": "int", "tell": "int", "write": "int", "from_bytes": "int", "pack": "bytes"}.get(e.func.attr)
+        return None
 
     def tmp(self):
         self.n += 1
@@ -62,6 +90,8 @@ class Tr:
             self.bail(e, "unsupported constant %r" % (e.value,))
         if isinstance(e, ast.Name):
             if e.id not in env:
+                if e.id in self.consts:
+                    return k("(%d)%%Z" % self.consts[e.id])
                 self.bail(e, "unknown name %s" % e.id)
             return k(e.id)
         if isinstance(e, ast.Attribute) and isinstance(e.value, ast.Name) and e.value.id == "self" and ("self_" + e.attr) in env:
@@ -71,8 +101,22 @@ class Tr:
         if isinstance(e, ast.BinOp) and isinstance(e.op, (ast.Add, ast.Sub)):
             op = "Z.add" if isinstance(e.op, ast.Add) else "Z.sub"
             return self.exprs([e.left, e.right], env, lambda vs: k("(%s %s %s)" % (op, vs[0], vs[1])))
-        if isinstance(e, ast.Compare) and len(e.ops) == 1 and isinstance(e.ops[0], ast.Eq):
-            return self.exprs([e.left, e.comparators[0]], env, lambda vs: k("(bytes_eqb %s %s)" % (vs[0], vs[1])))
+        if isinstance(e, ast.Compare) and len(e.ops) == 1:
+            op, tl, tr_ = e.ops[0], self.typeof(e.left, env), self.typeof(e.comparators[0], env)
+            if tl == tr_ == "bytes" and isinstance(op, (ast.Eq, ast.NotEq)):
+                fmt = "(bytes_eqb %s %s)" if isinstance(op, ast.Eq) else "(negb (bytes_eqb %s %s))"
+                return self.exprs([e.left, e.comparators[0]], env, lambda vs: k(fmt % (vs[0], vs[1])))
+            if tl == tr_ == "int":
+                fmt = {ast.Lt: "(Z.ltb %s %s)", ast.LtE: "(Z.leb %s %s)", ast.Gt: "(Z.ltb %s %s)", ast.GtE: "(Z.leb %s %s)",
+                       ast.Eq: "(Z.eqb %s %s)", ast.NotEq: "(negb (Z.eqb %s %s))"}.get(type(op))
+                if fmt:
+                    swap = isinstance(op, (ast.Gt, ast.GtE))
+                    return self.exprs([e.left, e.comparators[0]], env,
+                                      lambda vs: k(fmt % ((vs[1], vs[0]) if swap else (vs[0], vs[1]))))
+            self.bail(e, "unsupported comparison (operand types %s, %s)" % (tl, tr_))
+        if isinstance(e, ast.Call) and isinstance(e.func, ast.Name) and e.func.id in ("min", "max") and len(e.args) == 2 and not e.keywords \
+                and all(self.typeof(a, env) == "int" for a in e.args):
+            return self.exprs(list(e.args), env, lambda vs: k("(Z.%s %s %s)" % (e.func.id, vs[0], vs[1])))
         if self.is_f(e, "read") and not e.keywords and len(e.args) <= 1:
             t = self.tmp()
             if e.args:
@@ -123,6 +167,9 @@ class Tr:
         self.bail(e, "unsupported expression %s" % ast.dump(e)[:100])
 
     # ---- conditions of `if` ------------------------------------------------------------------------------------------
+    def is_flag_test(self, t):
+        return any(isinstance(n, ast.Constant) and n.value == "_metadata" for n in ast.walk(t))
+
     def flag(self, t):
         if isinstance(t, ast.Name) and t.id in self.flags:
             return self.flags[t.id]
@@ -163,10 +210,14 @@ class Tr:
                 name = "self_" + t.attr
             else:
                 self.bail(s, "unsupported assignment target")
-            return self.expr(s.value, env, lambda v: "let %s := %s in %s" % (name, v, cont(env | {name})))
+            ty = self.typeof(s.value, env)
+            return self.expr(s.value, env, lambda v: "let %s := %s in %s" % (name, v, cont({**env, name: ty})))
         if isinstance(s, ast.Assert):
             return self.expr(s.test, env, lambda v: "if %s then %s else None" % (v, cont(env)))
         if isinstance(s, ast.If):
+            if isinstance(s.test, ast.Compare) and self.typeof(s.test, env) == "bool" and not self.is_flag_test(s.test):
+                return self.expr(s.test, env, lambda c: "if %s then %s else %s" % (
+                    c, self.block(s.body + rest, env, k), self.block(s.orelse + rest, env, k)))
             c = self.flag(s.test)
             return "if %s then %s else %s" % (c, self.block(s.body + rest, env, k), self.block(s.orelse + rest, env, k))
         if isinstance(s, ast.Try):
@@ -178,6 +229,36 @@ class Tr:
                 and isinstance(s.items[0].context_expr.func, ast.Name) and s.items[0].context_expr.func.id == "open":
             return self.block(s.body + rest, env, k)
         self.bail(s, "unsupported statement %s" % type(s).__name__)
+
+
+def int_consts(mod):
+    """module-level NAME = <integer expression of literals> (e.g. FOOTER_READ_SIZE = 2**16)"""
+    out = {}
+
+    def ev(e):
+        if isinstance(e, ast.Constant) and isinstance(e.value, int) and not isinstance(e.value, bool):
+            return e.value
+        if isinstance(e, ast.BinOp):
+            a, b = ev(e.left), ev(e.right)
+            if a is None or b is None:
+                return None
+            if isinstance(e.op, ast.Add):
+                return a + b
+            if isinstance(e.op, ast.Sub):
+                return a - b
+            if isinstance(e.op, ast.Mult):
+                return a * b
+            if isinstance(e.op, ast.Pow) and 0 <= b <= 64:
+                return a ** b
+            if isinstance(e.op, ast.LShift) and 0 <= b <= 64:
+                return a << b
+        return None
+    for s in mod.body:
+        if isinstance(s, ast.Assign) and len(s.targets) == 1 and isinstance(s.targets[0], ast.Name):
+            v = ev(s.value)
+            if v is not None:
+                out[s.targets[0].id] = v
+    return out
 
 
 def find(mod, name, cls=None):
@@ -192,11 +273,12 @@ def has_call(node, fname):
 
 
 def translate_parse_header(api_path):
-    fn = find(ast.parse(open(api_path).read()), "_parse_header")
+    mod = ast.parse(open(api_path).read())
+    fn = find(mod, "_parse_header")
     args = [a.arg for a in fn.args.args]
     if args[:2] != ["self", "f"] or "verify" not in args:
         fail(fn, "unexpected signature", "api.py")
-    tr = Tr("api.py", "f", {"verify": "verify", "__md__": "is_md"})
+    tr = Tr("api.py", "f", {"verify": "verify", "__md__": "is_md"}, int_consts(mod))
     tr.stop = lambda s: has_call(s, "from_buffer")
 
     def result(env):
@@ -207,13 +289,14 @@ def translate_parse_header(api_path):
     calls = [n for n in ast.walk(fn) if isinstance(n, ast.Call) and isinstance(n.func, ast.Name) and n.func.id == "from_buffer"]
     if len(calls) != 1 or not (isinstance(calls[0].args[0], ast.Name) and calls[0].args[0].id == "data"):
         fail(fn, "expected exactly one from_buffer(data, ...)", "api.py")
-    body = tr.block(fn.body, {"f", "verify"}, result)
+    body = tr.block(fn.body, {"f": "file", "verify": "bool"}, result)
     return ("Definition parse_header_gen (is_md verify : bool) (file : bytes) : option (bytes * Z) :=\n"
             "  let f := f_open file in\n  %s.\n" % body)
 
 
 def translate_update_file(writer_path):
-    fn = find(ast.parse(open(writer_path).read()), "update_file_custom_metadata")
+    mod = ast.parse(open(writer_path).read())
+    fn = find(mod, "update_file_custom_metadata")
     flagname = "is_metadata_file"
     if flagname not in [a.arg for a in fn.args.args]:
         fail(fn, "unexpected signature", "writer.py")
@@ -227,9 +310,9 @@ def translate_update_file(writer_path):
     if len(body) != 1 or not isinstance(body[0], ast.With):
         fail(fn, "expected the body to be one `with open(...) as f:` block", "writer.py")
     fvar = body[0].items[0].optional_vars.id if isinstance(body[0].items[0].optional_vars, ast.Name) else None
-    tr = Tr("writer.py", fvar, {flagname: flagname})
+    tr = Tr("writer.py", fvar, {flagname: flagname}, int_consts(mod))
     tr.stop = None
-    txt = tr.block(body, {fvar}, lambda env: "Some (content %s)" % fvar)
+    txt = tr.block(body, {fvar: "file"}, lambda env: "Some (content %s)" % fvar)
     return ("Definition update_file_gen (%s : bool) (thrift : bytes -> bytes) (file : bytes) : option bytes :=\n"
             "  let %s := f_open file in\n  %s.\n" % (flagname, fvar, txt))
 
